@@ -91,6 +91,9 @@ def build_program(p):
         for u, v in p["edges"]:
             g.add_edge(u, v)
         flags = [s.bool_var() if k % 3 else (s.bool_var() | s.bool_var()) for k in range(p["n"])]
+        if p.get("consts"):
+            flags[1] = True                  # Python constants among the operands of a native operator
+            flags[-1] = False
         G.active_vertices_connected(s, flags, g, use_graph_primitive=True)
         s.ensure(flags[0])
     elif p["kind"] == "division":
@@ -114,7 +117,11 @@ def build_program(p):
         for u, v in p["edges"]:
             g.add_edge(u, v)
         sizes = [None if k % 2 else (2 if k % 4 == 0 else s.int_var(1, p["n"])) for k in range(p["n"])]
-        G.division_connected_variable_groups_with_borders(s, group_size=sizes, is_border=s.bool_array(len(p["edges"])), graph=g,
+        borders = list(s.bool_array(len(p["edges"])))
+        if p.get("consts"):
+            borders[0] = False
+            borders[-1] = True
+        G.division_connected_variable_groups_with_borders(s, group_size=sizes, is_border=borders, graph=g,
                                                           use_graph_primitive=True)
     keys = [v for k, v in enumerate(s.variables) if p["keymask"] >> (k % 16) & 1]
     if keys:
@@ -268,6 +275,8 @@ def programs(tier, rng):
     for n, es in graphs_:
         for kind in ("connected", "division", "cycle", "borders"):
             out.append({"kind": kind, "n": n, "edges": es, "keymask": rng.randrange(1, 1 << 16)})
+            if kind in ("connected", "borders"):
+                out.append({"kind": kind, "n": n, "edges": es, "keymask": rng.randrange(1, 1 << 16), "consts": True})
     for nv in ((300,) if tier == "quick" else (257, 300, 1100)):
         out.append({"kind": "many", "nvars": nv, "keymask": 0xFFFF})
     return out
